@@ -262,7 +262,7 @@ def run_job(job, rec):
         d = int(rng.choice([1, 2, 3, 5]))
         tkind, target = make_target(rng, d)
         target = mc.Interruptible(target)
-        T = 1.0 if kind == "ensemble" else float(rng.choice([1.0, 3.0, 7.5]))
+        T = 1.0 if kind == "ensemble" else float(rng.choice([1.0, 3.0, 7.5, rng.uniform(1.05, 9.9)]))
         bounded = bool(rng.random() < 0.45)
         ctx = {"program": c, "kind": kind, "d": d, "target": tkind, "T": T, "bounded": bounded}
         rec.context = ctx
